@@ -1507,12 +1507,12 @@ class Field(SupportComplexDataType):
         if self.is_named('MSH_1'):
             try:
                 return self.msh_1_1.children[0].value.value
-            except IndexError:
+            except (IndexError, AttributeError):  # (an empty MSH-1 / MSH-2 holds a plain string)
                 return self.msh_1_1.children[0].value
         elif self.is_named('MSH_2'):
             try:
                 return self.msh_2_1.children[0].value.value
-            except IndexError:
+            except (IndexError, AttributeError):
                 return self.msh_2_1.children[0].value
         return super(Field, self).to_er7(encoding_chars, trailing_children)
 
